@@ -108,8 +108,10 @@ def run(check):
         c.expect(js_start.startswith(plain), R, R + "/prefix", "js/source-map/index.js", "inline marker extends the plain marker", "SOURCE_MAP_LINE_START %r is not a prefix of the inline marker" % plain)
         variants = [v["name"].lower() for v in prog.adt("transform_status::Status")["variants"]]
         n = 0
+        from .. import jsguards
+        mconsts = jsguards.File(main).consts
         for x in jsast.walk(main.program):
-            cmp_ = jsast.strict_eq_literal(x) if x.get("type") == "BinaryExpression" else None
+            cmp_ = jsast.strict_eq_literal(x, mconsts) if x.get("type") == "BinaryExpression" else None
             if cmp_ and (jsast.opt_member_chain(cmp_[0]) or [""])[-1] == "status":
                 n += 1
                 c.expect(cmp_[1] in variants, R, "%s/status/%s" % (R, cmp_[1]), main.loc(x), "%r is a Status name" % cmp_[1], "main.js compares metrics.status with %r; the Rust side only produces %s" % (cmp_[1], variants))
@@ -178,57 +180,8 @@ def run(check):
                 if d["id"].get("type") == "ObjectPattern":
                     for p in d["id"]["properties"]:
                         imported[p["key"]["value"]] = src
-        cls = main.class_decl("CacheRewriter")
-        m = main.method(cls, "rewrite")
-        params = [jsast.param_name(p) for p in m["function"]["params"]]
-        # names bound to response.content
-        content_names = set()
-        resp_names = set()
-        for d in jsast.walk(m["function"]["body"]):
-            if d.get("type") == "VariableDeclarator" and d.get("init"):
-                init = d["init"]
-                if init.get("type") == "CallExpression" and callee_name(init) == ["super", "rewrite"]:
-                    resp_names.add(jsast.ident_name(d["id"]))
-        for d in jsast.walk(m["function"]["body"]):
-            if d.get("type") == "VariableDeclarator" and d.get("init") and d["id"].get("type") == "ObjectPattern" and jsast.ident_name(d["init"]) in resp_names:
-                for pp in d["id"]["properties"]:
-                    if pp.get("type") == "AssignmentPatternProperty" and pp["key"]["value"] == "content":
-                        content_names.add("content")
-                    elif pp.get("type") == "KeyValuePatternProperty" and pp["key"].get("value") == "content":
-                        content_names.add(jsast.ident_name(pp["value"]))
-        paths = js_paths(m["function"]["body"]["stmts"])
-        n_ret = 0
-        sup_ok = False
-        for p in paths:
-            if not (p and p[-1].get("type") == "ReturnStatement"):
-                continue
-            n_ret += 1
-            upd = []
-            for x in p:
-                if x.get("type") == "CallExpression":
-                    ch = callee_name(x)
-                    if ch == ["super", "rewrite"]:
-                        sup_ok = [jsast.ident_name(a) for a in call_args(x)] == params[:2]
-                    if ch and len(ch) == 1 and ch[0] in updaters and (imported.get(ch[0]) or "").rstrip("/").endswith("js/source-map"):
-                        a0 = jsast.ident_name(call_args(x)[0]) if call_args(x) else None
-                        if updaters[ch[0]] == "set":
-                            a1 = jsast.ident_name(call_args(x)[1]) if len(call_args(x)) > 1 else None
-                            from_resp = a1 in content_names
-                            c.expect(from_resp, R2, R2 + "/content-arg", main.loc(x), "the map is generated from the response's content", "the cached map is generated from `%s`, not from the rewritten content of the response" % a1)
-                        upd.append((ch[0], a0))
-            branch = [("%s=%s" % ((jsast.strict_eq_literal(x["test"]) or (None, "?"))[1], x["taken"])) for x in p if x.get("type") == "Branch"]
-            key = "%s/path/%s" % (R2, ",".join(branch) or "straight")
-            good = [u for u in upd if u[1] == params[1]]
-            c.expect(bool(good), R2, key, main.loc(m), "path [%s] updates the cache entry of `%s` via %s" % (", ".join(branch), params[1], good[0][0] if good else "-"), "path [%s] through CacheRewriter.rewrite returns without updating the cached map of the file: a later lookup uses the map of an earlier rewrite" % ", ".join(branch))
-            if good and good[0][0] in updaters and updaters[good[0][0]] == "set":
-                # the set path must be the one taken for modified results
-                c.expect(any(b == "modified=True" for b in branch), R2, R2 + "/set-on-modified", main.loc(m), "the map is cached on the 'modified' branch", "the map is cached on a branch other than status === 'modified'")
-        c.floor(R2, "returning paths of CacheRewriter.rewrite", n_ret, 2)
-        c.expect(sup_ok, R2, R2 + "/same-file", main.loc(m), "super.rewrite(code, file) and the cache update use the same `file`", "CacheRewriter.rewrite does not pass (code, file) to super.rewrite")
-        tr = [x for x in m["function"]["body"]["stmts"] if x.get("type") == "TryStatement"]
-        c.expect(len(tr) == 1 and tr[0].get("handler") is not None, R2, R2 + "/try", main.loc(m), "cache update wrapped in try/catch", "cache update is not wrapped in try/catch")
-        cont = [x for x in jsast.walk(m["function"]["body"]) if x.get("type") == "ObjectPattern"]
-        c.ok(R2, R2 + "/content-source", main.loc(m), "content and metrics are destructured from the response")
+        from .. import jsguards
+        jsguards.rule_cache_sync(c, R2, main, updaters, imported)
 
     check.guarded(R2, cache)
 
@@ -293,6 +246,9 @@ def run(check):
         for r_ in [x for x in jsast.walk(o) if x.get("type") == "ReturnStatement"]:
             arg = r_.get("argument") or {}
             if arg.get("type") == "CallExpression" and callee_name(arg) == ["getPathAndLine"]:
+                # getPathAndLine itself hands its parameters back when it has no map (checked above)
+                if [jsast.ident_name(a) for a in call_args(arg)][1:] == op[:3]:
+                    n_pass += 1
                 continue
             d = {}
             for p in arg.get("properties", []) if arg.get("type") == "ObjectExpression" else []:
@@ -427,6 +383,15 @@ def run(check):
         c.floor(R5, "module-level bindings inspected", n, 10)
 
     check.guarded(R5, state)
+
+    R6 = "JS-GUARDS"
+    check.rule(R6, "the sites of the JS glue that decide whether and how a position is translated are reached exactly under their documented conditions (propositional entailment in both directions between the structural path conditions, through guard clauses, conditional expressions and local helpers, and the gate): inline map decoded iff the last line of the trimmed content starts with the inline marker; referenced file read iff it starts with the plain marker only and names a url; SourceMap built iff a raw map was obtained; findEntry iff a map is given; original-map cache loaded / filled / consulted per its miss protocol; an already wrapped handler returned as is (mark truthy); the user's handler called iff present; a stack line translated iff it is a frame line with a call site (eval frames: iff their origin parses), using line index - first frame index; the replaced text is the looked-up position; the package's Rewriter is the caching class")
+
+    def guards(c):
+        from .. import jsguards
+        jsguards.run(check, c, R6, main, sm, st, sm.const_string("SOURCE_MAP_INLINE_LINE_START"))
+
+    check.guarded(R6, guards)
     return {
         "explanation": "Rules over the ESTree of the three JS files (parsed with the repository's own swc parser; nothing is executed): constants and status literals against the Rust side, every structural path of CacheRewriter.rewrite must update the cache entry of the file it rewrote, who writes the cache, index arithmetic of the lookup, pass-through and try/catch wrappers, and the wiring of the stack-trace wrapper.",
         "assumptions": ["node_source_map.js (vendored Node source-map implementation) findEntry semantics", "V8 CallSite API"],
